@@ -180,10 +180,10 @@ def zsStep (st : St) (op : String) (k : Bytes) (args : List String) : St × Stri
   | "zrange", [a, b, r] =>
     match a.toInt?, b.toInt?, r with
     | some a, some b, "0" =>
-      let d := if Code.zrangeDev false (Code.zcard ck) a b then "zrange-clamp" else "-"
+      let d := if !st.fixedRange && Code.zrangeDev false (Code.zcard ck) a b then "zrange-clamp" else "-"
       (st, s!"C={showEnts (Code.zrange st.fixedRange a b false ck)} S={showSpec (Spec.zrange z a b)} D={d}" ++ tail k st)
     | some a, some b, "1" =>
-      let d := if Code.zrangeDev true (Code.zcard ck) a b then "zrevrange-clamp" else "-"
+      let d := if !st.fixedRange && Code.zrangeDev true (Code.zcard ck) a b then "zrevrange-clamp" else "-"
       (st, s!"C={showEnts (Code.zrange st.fixedRange a b true ck)} S={showSpec (Spec.zrevrange z a b)} D={d}" ++ tail k st)
     | _, _, _ => (st, "bad-op")
   | "zrbs", [lo, hi, r] =>
